@@ -6,7 +6,7 @@ Driver handlers for the C05 streams (election, ticker, schedule, before-time, mv
 namespace ZV.Driver
 open ZV ZV.Consensus
 
-def parsePD (s : String) : Option PD :=
+def parsePDC (s : String) : Option PD :=
   match s.splitOn ":" with
   | [n, p, w] => do
       let n ← ofHex n
@@ -55,7 +55,7 @@ def pureElection : List String → Option String
       let h ← h.toNat?
       let k ← k.toNat?
       if rest.length < k then none
-      let ds ← (rest.take k).mapM parsePD
+      let ds ← (rest.take k).mapM parsePDC
       let tab ← parsePerms (rest.drop k)
       if !(tab.all fun e => isPermOfRange e.2.2 e.2.1) then
         pure "oracle-not-a-permutation"
@@ -149,7 +149,7 @@ def showReason : Reason → String
 def stripKey (key s : String) : Option String :=
   if s.startsWith (key ++ "=") then some (String.ofList (s.toList.drop (key.length + 1))) else none
 
-def parseBool (s : String) : Option Bool :=
+def parseBoolC (s : String) : Option Bool :=
   if s = "true" then some true else if s = "false" then some false else none
 
 def parseList {α} (f : String → Option α) (s : String) : Option (List α) :=
@@ -162,7 +162,7 @@ def parseHeader (s : String) : Option Header :=
 
 def parsePBlock (s : String) : Option PBlock :=
   match s.splitOn "/" with
-  | [a, h, n, p, b] => do pure ⟨← ofHex a, ← ofHex h, ← n.toNat?, ← ofHex p, ← parseBool b⟩
+  | [a, h, n, p, b] => do pure ⟨← ofHex a, ← ofHex h, ← n.toNat?, ← ofHex p, ← parseBoolC b⟩
   | _ => none
 
 def parseAcc (s : String) : Option (Bytes × Option (Bytes × Nat)) :=
@@ -199,7 +199,7 @@ def pureMverify : List String → Option String
         | _ => none
       let o ← match (← stripKey "o" o).splitOn ":" with
         | [ch, vmOk, ph, sigErr, sigOk, prod] => do
-            let oo : Oracle := ⟨← ofHex ch, ← parseBool vmOk, ← ofHex ph, ← parseBool sigErr, ← parseBool sigOk, ← ofHex prod⟩
+            let oo : Oracle := ⟨← ofHex ch, ← parseBoolC vmOk, ← ofHex ph, ← parseBoolC sigErr, ← parseBoolC sigOk, ← ofHex prod⟩
             pure oo
         | _ => none
       let (c, randCount) ← match (← stripKey "ctx" ctx).splitOn ":" with
@@ -225,7 +225,7 @@ def pureMverify : List String → Option String
             let ph ← ph.toNat?
             let k ← k.toNat?
             if rest.length < k then none
-            let ds ← (rest.take k).mapM parsePD
+            let ds ← (rest.take k).mapM parsePDC
             let tab ← parsePerms (rest.drop k)
             if !(tab.all fun e => isPermOfRange e.2.2 e.2.1) then none
             pure (fun t => if t = tick then
